@@ -158,6 +158,8 @@ impl<'a> GenericPlan<'a> {
                 let mut ctx = ctx.clone();
                 ctx.write($cost_extra); // LATCH byte
                 let mut new = $plan::new(ctx);
+                #[cfg(datamatrix_verif)]
+                crate::verif_hooks::planner_count_step();
                 if let Some(_) = new.step() {
                     list.push(Self {
                         extra: ascii_cost + $cost_extra,
